@@ -1127,4 +1127,86 @@ class VmTarSuite(Suite):
         return case
 
 
-SUITES = {"vmtar": VmTarSuite()}
+class FarSuite(Suite):
+    """Visor archives whose data areas lie far into the file (around and beyond 2 GiB, up to just below 4 GiB: the recorded
+    data offset is an unsigned 32-bit field), on a sparse file: every member extracts the bytes at its recorded offset and
+    the listing is complete.  Implementation against the generator's intent (no model: the archive cannot be shipped)."""
+    name = "far"
+    per_case_timeout = 60.0
+
+    def generate(self, rng, tier):
+        out = []
+        for _ in range(24 if tier == "thorough" else 5):
+            n = rng.randint(2, 6)
+            members = []
+            offs = set()
+            for i in range(n):
+                m = gen_member(rng, True, rng.pick(["file", "file", "file", "dir", "empty"]))
+                if m["type"] == 48 and m["size"] > 0:
+                    while True:
+                        off = rng.pick([0x7FFFF000, 0x80000000, 0x80001000, 0xC0000000, 0xFFFFE000, 0x40000000, 0x10000]) \
+                            + 4096 * rng.randrange(0, 64)
+                        if off not in offs and off + m["size"] < (1 << 32):
+                            break
+                    offs.add(off)
+                    m["voff"] = off
+                members.append(m)
+            out.append({"items": members, "salt": rng.randrange(1 << 30)})
+        return out
+
+    @staticmethod
+    def _file(case):
+        chunks = {}
+        pos = 0
+        for m in case["items"]:
+            chunks[pos] = header_bytes(m)
+            pos += 512
+        chunks[pos] = b"\0" * 1024
+        end = pos + 1024
+        for m in case["items"]:
+            if m["voff"]:
+                chunks[m["voff"]] = pat_bytes(m["dseed"], 0, m["size"])
+                end = max(end, m["voff"] + m["size"])
+        return core.SparseFile(end + 512, chunks, fill="zero")
+
+    def impl(self, case):
+        from dissect.hypervisor.util import vmtar
+        sf = self._file(case)
+        out = {"open": None, "members": []}
+        try:
+            t = vmtar.open(fileobj=sf)
+            for m in t.getmembers():
+                ent = {"name": m.name, "size": m.size, "isreg": m.isreg()}
+                if m.isreg():
+                    f = t.extractfile(m)
+                    ent["data"] = f.read() if f is not None else None
+                out["members"].append(ent)
+        except Exception as e:  # noqa: BLE001
+            out["open"] = {"exc": type(e).__name__, "msg": str(e)[:120]}
+        return out
+
+    def judge(self, case, impl_res, coq_val):
+        if impl_res.get("outcome"):
+            return [Finding("impl_fault", f"vmtar: implementation {impl_res['outcome']}", "vmtar:far:" + impl_res["outcome"])]
+        if impl_res["open"] is not None:
+            return [Finding("impl_vs_spec", f"vmtar: well-formed far archive raised {impl_res['open']}", "vmtar:far:exc")]
+        fs = []
+        got = impl_res["members"]
+        if len(got) != len(case["items"]):
+            fs.append(Finding("impl_vs_spec", f"vmtar: {len(got)} members listed, {len(case['items'])} stored", "vmtar:far:count"))
+        for m, g in zip(case["items"], got):
+            if m["type"] == 48 and m["size"] > 0:
+                want = pat_bytes(m["dseed"], 0, m["size"])
+                if g.get("data") != want:
+                    fs.append(Finding("impl_vs_spec", f"vmtar: member with data offset {m['voff']:#x} ({m['size']} bytes) does "
+                                      f"not extract the bytes stored there", "vmtar:far:data"))
+        return fs
+
+    def nontrivial(self, case, impl_res, coq_val):
+        return core.sha(core.jdump(case).encode())
+
+    def dist(self, case):
+        return {"members": len(case["items"]), "beyond_2g": sum(1 for m in case["items"] if m["voff"] >= (1 << 31))}
+
+
+SUITES = {"vmtar": VmTarSuite(), "far": FarSuite()}
